@@ -42,6 +42,9 @@ static char *one_line(char *s, int size, void *src)
 	for (i = 0; i < LLEN + 2; i++) { if (i < size - 1) s[i] = g_src[i]; if (g_src[i] == 0) break; }
 	return s;
 }
+#ifdef WITH_MARKER
+int __CPROVER_file_local_mps_mpq_c_is_marker_line(mpq_ILLread_mps_state *state);
+#endif
 void harness(void)
 {
 	mpq_ILLread_mps_state *st = qsv_alloc(sizeof *st);
@@ -67,6 +70,11 @@ void harness(void)
 	case 1: mpq_ILLmps_check_end_of_line(st); break;
 	case 2: rv = mpq_ILLmps_next_coef(st, &coef); break;
 	case 3: rv = mpq_ILLmps_next_line(st); break;
+#ifdef WITH_MARKER
+	case 5: rv = __CPROVER_file_local_mps_mpq_c_is_marker_line(st);	/* the whole line is searched for the word 'MARKER' */
+		ASSERT(rv == 0, "C10/C11: a line shorter than the word 'MARKER' (8 bytes) is not a marker line");
+		break;
+#endif
 	default: rv = mpq_ILLmps_next_bound(st, &coef); break;
 	}
 	cur = 0; for (i = 0; i < LLEN + 2; i++) if (st->line[cur] != 0) cur++;
